@@ -126,9 +126,6 @@ def runModel (c : Cfg) (w0 : World) (ops : List Op) : List StepObs × List Strin
 def handle (req : Json) : Except String Json := do
   let case ← req.getObjVal? "case"
   let prop ← getStr case "prop"
-  -- `strict`: judge hard violations only (set by the plugin while it shrinks a hard violation, so that the
-  -- minimised case cannot degrade into a known finding)
-  let strict := (getOpt case "strict").bind (·.getBool?.toOption) |>.getD false
   let nsp ← getNat case "nsp"
   let srcInit ← (← getArr case "src_init").toList.mapM fun r => do (← r.getArr?).toList.mapM (·.getInt?)
   let tds ← (← getArr case "targets").toList.mapM fun t => do
@@ -173,7 +170,7 @@ def handle (req : Json) : Except String Json := do
         -- a known finding is reported only on runs where code and model agree on everything observed
         let render : Option Verdict → Option String := fun
           | some (.hard w) => some w
-          | some (.finding k w) => if same && !strict then some s!"finding:{k}: {w}" else none
+          | some (.finding k w) => if same then some s!"finding:{k}: {w}" else none
           | none => none
         pure (n, render vi, render vm)
       else do
